@@ -608,8 +608,7 @@ def normalize_callee(c):
     m = re.match(r"^<(.*) as (.*)>::(\w+)(?:::<.*>)?$", c)
     if m:
         return "<%s as %s>::%s" % (type_key(m.group(1)), type_key(m.group(2)), m.group(3))
-    c = re.sub(r"::<.*>$", "", c)            # trailing turbofish
-    segs = split_path(c)
+    segs = split_path(c)                      # depth-aware; turbofish / <impl ..> segments are dropped
     if len(segs) >= 2:
         return "%s::%s" % (type_key(segs[-2]), segs[-1])
     return segs[-1]
